@@ -33,6 +33,7 @@ type GenOpts struct {
 	NoDupIDs  bool
 	Always    string // if non-empty: this term occurs in every instance of the first field name
 	HasAlways bool
+	VecSalt   int // vector-field configuration (dims, metric, optimisation) is a function of (field name, salt): equal in all batches of a merge plan
 }
 
 func pick(rng *rand.Rand, pool []string, n int) []string {
@@ -268,7 +269,11 @@ func Gen(rng *rand.Rand, class string, o GenOpts) *Batch {
 		b.Docs = append(b.Docs, doc)
 	}
 	if o.Vec {
-		addVectors(rng, b)
+		salt := o.VecSalt
+		if salt == 0 {
+			salt = 1 + rng.Intn(1000)
+		}
+		addVectors(rng, b, salt)
 	}
 	if o.Syn {
 		addSynonymDocs(rng, b, o.IDPrefix)
@@ -356,15 +361,17 @@ func genVec(rng *rand.Rand, dims int) []float32 {
 	return v
 }
 
-func addVectors(rng *rand.Rand, b *Batch) {
+func addVectors(rng *rand.Rand, b *Batch, salt int) {
 	if len(b.Docs) == 0 {
 		return
 	}
 	nf := 1 + rng.Intn(2)
 	for _, name := range pick(rng, VecPool, nf) {
-		dims := 2 + rng.Intn(4)
-		metric := Metrics[rng.Intn(3)]
-		opt := Opts[rng.Intn(3)]
+		// all vectors of one field share dims / metric / optimisation (field mapping)
+		h := salt*31 + len(name)*7 + int(name[0])
+		dims := 2 + h%4
+		metric := Metrics[(h/4)%3]
+		opt := Opts[(h/12)%3]
 		var pool [][]float32
 		for i := 0; i < 6; i++ {
 			pool = append(pool, genVec(rng, dims))
